@@ -202,8 +202,9 @@ def rule_one_consumer(m, rep, rid='R2', parts=('receiver', 'callers')):
            'run() is called only from the closure given to thread::spawn' if okr else
            'run() is called from %s' % [b.short() for b, _ in run_callers])
     sp_callers = sorted(set(b.path for b in cad.all_bodies for bi, t in b.calls() if t.get('resolved') == m.spawn.path))
-    okw = bool(sp_callers) and m.sentinel_drop.path in sp_callers and \
-        all(p_ == m.sentinel_drop.path or p_ in m.build_region for p_ in sp_callers) and any(p_ in m.build_region for p_ in sp_callers)
+    sd_region = private_region(cad, [m.sentinel_drop]) | {m.sentinel_drop.path}       # the destructor and helpers only it calls
+    okw = bool(sp_callers) and any(p_ in sd_region for p_ in sp_callers) and \
+        all(p_ in sd_region or p_ in m.build_region for p_ in sp_callers) and any(p_ in m.build_region for p_ in sp_callers)
     rep.ob(rid, 'spawn-sites', okw, m.spawn.where(),
            'worker threads are spawned by build() and by the sentinel only' if okw else
            'worker threads are spawned from %s' % sp_callers)
